@@ -545,10 +545,10 @@ type SpecDB struct {
 	Errors    []string
 }
 
-var keyLine = regexp.MustCompile(`^(func|iface|extern|trusted)\s+(.+?)\s*(\[[A-Z0-9 ,]+\])?\s*$`)
+var keyLine = regexp.MustCompile(`^(func|iface|extern|trusted|dyn)\s+(.+?)\s*(\[[A-Z0-9 ,]+\])?\s*$`)
 var tagsRe = regexp.MustCompile(`^(\w[\w-]*)\[([A-Z0-9, ]+)\]`)
 
-var clauseKeywords = map[string]bool{"func": true, "iface": true, "extern": true, "trusted": true, "define": true,
+var clauseKeywords = map[string]bool{"func": true, "iface": true, "extern": true, "trusted": true, "dyn": true, "define": true,
 	"lemma": true, "requires": true, "ensures": true, "raises": true, "noraise": true, "noreturn": true,
 	"modifies": true, "loop": true, "assert": true, "mode": true, "inline": true, "pure": true,
 	"outside-subset": true, "assume": true, "may-panic": true, "nosafe": true, "end": true, "bounded": true,
@@ -663,7 +663,7 @@ func (db *SpecDB) parseFile(fname, prefix, data string) {
 			return e
 		}
 		switch kw {
-		case "func", "iface", "extern", "trusted":
+		case "func", "iface", "extern", "trusted", "dyn":
 			m := keyLine.FindStringSubmatch(body)
 			if m == nil {
 				errf("bad key line %q", body)
@@ -679,8 +679,11 @@ func (db *SpecDB) parseFile(fname, prefix, data string) {
 			if kw == "extern" {
 				key = "extern " + key
 			}
+			if kw == "dyn" {
+				key = "dyn " + prefix + key
+			}
 			cur = &Contract{Key: key, KeyKind: kw, Tags: splitTags(m[3]), Loops: map[string]*LoopSpec{}, File: fname, Line: loc}
-			if kw == "extern" || kw == "trusted" {
+			if kw == "extern" || kw == "trusted" || kw == "dyn" {
 				cur.Opaque = true
 			}
 			if _, dup := db.Contracts[key]; dup {
